@@ -45,6 +45,18 @@ def build(rng, tier):
                 continue
             if rng.random() < (0.0 if ns == 1 else 0.45):
                 scn['sources'][si][m] = 'absent'
+    # a file named unlike its module, whose module imports the file's own name (and is requested by it)
+    if rng.random() < 0.08 and not scn['files']:
+        m = rng.choice(mods)
+        imported_ = set(d for v in g.values() for d in v)
+        if m not in imported_:
+            alias = m.replace('-MIB', '-FILE')      # must be a legal module name to be importable
+            scn['files'][alias] = [m]
+            scn['requested'] = [alias if r == m else r for r in scn['requested']]
+            if alias not in scn['requested']:
+                scn['requested'].append(alias)
+            scn['graph'][m] = scn['graph'][m] + [alias]
+            scn['self_alias_import'] = True
     # SMIv1 style dependencies: every symbol imported from them is rewritten to an SMIv2 home, the
     # module is named in IMPORTS all the same and belongs to the closure
     if rng.random() < 0.3:
@@ -80,6 +92,8 @@ def run_case(idx, rng, tier, res):
         res.count('multi_module_files')
     if scn.get('v1'):
         res.count('smiv1_style_import_scenarios')
+    if scn.get('self_alias_import'):
+        res.count('alias_file_importing_its_own_name')
     res.cell('graph:' + cls, 'sources:%d' % len(scn['sources']),
              'closure:%d' % min(8, len(orch.closure(scn, scn['requested']))))
     res.sig = harness.stable_hash(scn)
